@@ -161,7 +161,7 @@ EXTRA_NAMES = ["e1", "zip", "price", "flag", "when", "note", "aa"]
 @st.composite
 def index_labels(draw, n):
     kind = draw(st.sampled_from(["range", "range", "offset", "str", "float", "dup", "dup",
-                                 "perm", "neg"]))
+                                 "perm", "neg", "multi", "datetime"]))
     if kind == "range":
         return list(range(n))
     if kind == "offset":
@@ -174,6 +174,11 @@ def index_labels(draw, n):
         return [i // 2 for i in range(n)]
     if kind == "neg":
         return [-i for i in range(n)]
+    if kind == "multi":
+        # two-level MultiIndex, second level repeating (labels are lists in the record)
+        return [[i // 2, "ab"[i % 2]] for i in range(n)]
+    if kind == "datetime":
+        return ["ts:2001-01-%02dT00:00:00" % (1 + (i * 3) % 28) for i in range(n)]
     return list(draw(st.permutations(list(range(n)))))
 
 
@@ -214,7 +219,7 @@ def extra_column(draw, name, n):
 
 @st.composite
 def table(draw, join_values, max_extra=3, join_kind="obj", key_kinds=("int", "str"),
-          shuffle=True):
+          shuffle=True, key_is_attr_ok=True):
     n = len(join_values)
     kname = draw(st.sampled_from(KEY_NAMES))
     aname = draw(st.sampled_from(ATTR_NAMES))
@@ -229,7 +234,15 @@ def table(draw, join_values, max_extra=3, join_kind="obj", key_kinds=("int", "st
             cols.append(draw(extra_column(nm, n)))
     if shuffle and len(cols) > 1:
         cols = list(draw(st.permutations(cols)))
-    return {"columns": cols, "index": draw(index_labels(n)), "key": kname, "attr": aname}
+    rec = {"columns": cols, "index": draw(index_labels(n)), "key": kname, "attr": aname}
+    nm = draw(st.sampled_from([None] * 5 + [kname, aname, "idx"]))
+    if nm is not None:
+        rec["index_name"] = nm      # a named index, possibly named like a column
+    present = [v for v in join_values if not oracle.is_missing(v)]
+    if key_is_attr_ok and n and len(present) == n and len(set(present)) == n and \
+            draw(st.integers(0, 7)) == 0:
+        rec["key"] = aname          # the (unique, complete) join column doubles as the key
+    return rec
 
 
 def table_sizes(tier):
@@ -280,15 +293,20 @@ def self_join_pair(draw, L, alt_values):
     return L, R
 
 
+STRING_KINDS = ["obj"] * 6 + ["strdtype", "nastring"]
+
 MISSING_PATTERNS = ["none", "left", "right", "both", "all", "lall", "rall"]
 
 
 @st.composite
 def two_tables(draw, tokcfg, tier, p_empty=1, missing=None, p_dup=1, max_extra=3,
-               min_rows=0, join_kind="obj", self_join=None):
+               min_rows=0, join_kind=None, self_join=None):
     """Two table records sharing a vocabulary and cluster seeds.  One case in eight (or every
     case with self_join=True) is a self-join: the same table object on both sides."""
     mr, mt = draw(size_profile(tier))
+    if join_kind is None:
+        # mostly object columns; also the two pandas string dtypes (NaN- and NA-backed)
+        join_kind = draw(st.sampled_from(STRING_KINDS))
     words = draw(vocabulary(tokcfg))
     ww = _weighted(words)
     seeds = draw(st.lists(token_list(ww, mt, 1), min_size=1, max_size=3))
@@ -309,7 +327,7 @@ def two_tables(draw, tokcfg, tier, p_empty=1, missing=None, p_dup=1, max_extra=3
     L = draw(table(lv, max_extra, join_kind))
     if self_join:
         return draw(self_join_pair(L, rv))
-    R = draw(table(rv, max_extra, join_kind))
+    R = draw(table(rv, max_extra, draw(st.sampled_from([join_kind, join_kind, "obj"]))))
     return L, R
 
 
@@ -489,10 +507,11 @@ def ed_tables(draw, tier, missing=None, max_extra=2, self_join=None):
     if missing in ("right", "both", "all", "rall"):
         rv = [draw(st.sampled_from([None, NAN]))
               if (missing in ("all", "rall") or draw(st.integers(0, 3)) == 0) else v for v in rv]
-    L = draw(table(lv, max_extra))
+    jk = draw(st.sampled_from(STRING_KINDS))
+    L = draw(table(lv, max_extra, jk))
     if self_join:
         return draw(self_join_pair(L, rv))
-    R = draw(table(rv, max_extra))
+    R = draw(table(rv, max_extra, draw(st.sampled_from(STRING_KINDS))))
     return L, R
 
 
